@@ -25,6 +25,13 @@ pub struct C14;
 pub const NFUNCS: u8 = 8;
 /// one public call, result rendered as a string
 pub fn perform(lg: &Language, c: &Call) -> String {
+    // a panic is C03's business; here it is just another (comparable) outcome
+    match std::panic::catch_unwind(std::panic::AssertUnwindSafe(|| perform_inner(lg, c))) {
+        Ok(s) => s,
+        Err(_) => "<panicked>".to_string(),
+    }
+}
+fn perform_inner(lg: &Language, c: &Call) -> String {
     let th = th_of(c.th_bits);
     match c.f % NFUNCS {
         0 => format!("{:?}", text2digits(&c.text, lg)),
